@@ -67,7 +67,9 @@ HEADER_LINES = ["Hash: SHA256", "Hash: SHA512", "Hash: SHA1,SHA256", "Version: G
 PAYLOAD_LINES = ["", "", " ", "\t", "Origin: Debian", "Label: Debian", "Suite: experimental", "Source: foo",
                  "Version: 1.0-1", "Files:", " abc 12 foo_1.0.dsc", " .", "Description: é 中 \U0001f600",
                  "Hello, world!", "Hash: SHA256", " " + B, " " + E, " " + M, "BEGIN PGP SIGNATURE",
-                 "=" + B, "x" + E, "a\rb", "\ra", ":", "#", "a", "=olY7"]
+                 "=" + B, "x" + E, "a\rb", "\ra", ":", "#", "a", "=olY7",
+                 # characters that other languages treat as line breaks; str::lines() does not
+                 "a\x0bb", "a\x0cb", "a\x85b", "a\u2028b", "\u2029", "\x1c"]
 SIG_LINES = ["iQIzBAEBCAAdFiEEpyNohvPMyq0Uiif4DphATThvodkFAmbJ6swACgkQDphATThv",
              "odkUiw//VDVOwHGRVxpvyIjSvH0AMQmANOvolJ5EoCu1I5UG2x98UPiMV5oTNv1r", "=olY7", "", "", "Version: GnuPG v2",
              "abc", "+/==", " ", B, M, " " + E, "-----END PGP SIGNATURE----", "----END PGP SIGNATURE-----",
@@ -227,7 +229,7 @@ def mutate_msg(rng, s):
         return rng.choice(["\n", "\r", M, M + "\n"])
     if k in ("delc", "insc", "repc"):
         i = rng.randrange(len(s))
-        c = rng.choice(CHAR_ALPHABET + ["é", "B"])
+        c = rng.choice(CHAR_ALPHABET + ["é", "B", "\x0b", "\x0c", "\x85", "\u2028"])
         return {"delc": s[:i] + s[i+1:], "insc": s[:i] + c + s[i:], "repc": s[:i] + c + s[i+1:]}[k]
     ls = s.split("\n")
     if k == "delline":
